@@ -322,14 +322,34 @@ def run_check(prop, module, tier, seed):
                 if lc.returncode != 0:
                     ctx.broken.append("leanchecker rejected the compiled modules: " + lc.stdout[-400:])
         if os.path.exists(DRIVER):
-            module.correspond(ctx)
+            try:
+                module.correspond(ctx)
+            except (subprocess.TimeoutExpired, KeyboardInterrupt):
+                raise
+            except Exception as e:  # noqa: BLE001
+                # An exception escaping from the implementation under test (innermost frames inside /repo) while the
+                # harness drives it with inputs that are valid on the reference tree is an observation about the code,
+                # not a harness failure: the correspondence cannot be completed, i.e. the tie is broken.
+                tb = traceback.extract_tb(e.__traceback__)
+                inner = tb[-1].filename if tb else ""
+                in_repo = any(os.path.abspath(fr.filename).startswith(os.path.abspath(REPO) + os.sep) for fr in tb[-6:])
+                if not in_repo:
+                    raise
+                where = "; ".join(f"{os.path.relpath(fr.filename, REPO)}:{fr.lineno}" for fr in tb if os.path.abspath(fr.filename).startswith(os.path.abspath(REPO) + os.sep))[-300:]
+                ctx.broken.append(f"the implementation raised {type(e).__name__}: {str(e)[:160]} inside the correspondence run "
+                                  f"(frames: {where}); the run could not be completed")
         else:
             ctx.broken.append("model driver could not be built; correspondence not run")
             if hasattr(module, "oracle_only"):
                 module.oracle_only(ctx)
         tie_broken = bool(ctx.broken or ctx.disagreements)
         if tie_broken and not ctx.violations and hasattr(module, "search"):
-            module.search(ctx)
+            try:
+                module.search(ctx)
+            except (subprocess.TimeoutExpired, KeyboardInterrupt):
+                raise
+            except Exception as e:  # noqa: BLE001  -- the tie is already broken; a crashing search finds nothing
+                ctx.broken.append(f"failing-input search aborted: {type(e).__name__}: {str(e)[:160]}")
     except subprocess.TimeoutExpired as e:
         print(f"TIMEOUT in check {prop}: {e}")
         sys.exit(2)
